@@ -97,6 +97,10 @@ def main():
             text += (f" The decision logic of {GUARDS[pid]} is re-translated from the source into Lean on every run (translate/py2lean_guards.py → LK/Generated/Guards{pid}.lean) "
                      f"and proved to be the model's (LK/Proofs/Guards{pid}.lean); a broken obligation triggers the failing-input search.")
             tech += " + per-run translation of decision logic with proof obligations"
+        if pid == "C15":
+            text += (" The file-system step sequence of the real DataContainer.save (over an existing directory and into a fresh one) is recorded on every run and proved to be the model's saveSteps / saveFresh "
+                     "(LK/Proofs/SaveTraceC15.lean), so the crash-safety theorems apply to what the code did.")
+            tech += " + per-run recording of the save's step sequence proved equal to the model's"
         if pid == "C17":
             text += (" _expand_and_align_list_array is re-translated statement by statement on every run (translate/py2lean_arrow.py → LK/Generated/ArrowC17.lean) and proved equal to the model's expandAlign "
                      "(expandAlignT_eq: scatter of lengths + cumulative sum = prefix sums; null mask), hence to read back what was supplied.")
